@@ -224,3 +224,34 @@ m('c18-current-is-bottom', 'C18', P, "            return PROCESS_STACK.get()[-1]
 m('c18-step-executes-directly', 'C18', P, "                next_state = await self._run_task(self._state.execute)", "                next_state = await utils.ensure_coroutine(self._state.execute)()", 'fire', 'Running.execute')
 m('c18-silent-scope-renamed-local', 'C18', P, "        coro = utils.ensure_coroutine(callback)\n        with self._process_scope():\n            result = await coro(*args, **kwargs)", "        fn = utils.ensure_coroutine(callback)\n        with self._process_scope():\n            result = await fn(*args, **kwargs)", 'silent')
 m('c18-stack-set-elsewhere', 'C18', P, "        self._cleanups = []  # a list of functions to be ran on terminated\n", "        self._cleanups = []  # a list of functions to be ran on terminated\n        PROCESS_STACK.set([self])\n", 'fire', 'init')
+
+# ------------------------------------------------------------------ C09
+m('c09-if-no-break', 'C09', WC, "                if conditional.is_true(self._workchain):\n                    break\n                self._pos += 1", "                if conditional.is_true(self._workchain):\n                    pass\n                else:\n                    self._pos += 1", 'fire', '_IfStepper.step')
+m('c09-if-redecides-with-child', 'C09', WC, "        if self._child_stepper is None:\n            # Check the conditions until we find one that is true or we get to the end and\n            # none are true in which case we set pos to past the end\n            for conditional in self._if_instruction:",
+  "        if True:\n            for conditional in self._if_instruction:", 'fire', '_IfStepper.step')
+m('c09-do-step-condition', 'C09', WC, "        if not finished and (return_value is None or isinstance(return_value, ToContext)):", "        if not finished:", 'fire', '_do_step', 'a step returning a value no longer stops the chain')
+m('c09-while-no-reevaluation', 'C09', WC, "        finished, result = self._child_stepper.step()\n        if finished:\n            self._child_stepper = None\n\n        return False, result",
+  "        finished, result = self._child_stepper.step()\n        if finished:\n            self._child_stepper = self._while_instruction.body.create_stepper(self._workchain)\n\n        return False, result", 'fire', '_WhileStepper.step')
+m('c09-while-false-runs-body', 'C09', WC, "            else:  # Nope...we're done\n                return True, None", "            else:  # Nope...we're done\n                return False, None", 'fire', '_WhileStepper.step')
+m('c09-return-swallowed', 'C09', WC, "class _PropagateReturn(BaseException):", "class _PropagateReturn(Exception):", 'fire', '_PropagateReturn')
+m('c09-return-code-lost', 'C09', WC, "            finished, return_value = True, exception.exit_code", "            finished, return_value = True, None", 'fire', '_do_step')
+m('c09-block-skips', 'C09', WC, "        assert not self.finished()\n        self._pos += 1", "        assert not self.finished()\n        self._pos += 2", 'fire', 'next_instruction')
+m('c09-block-advance-always', 'C09', WC, "        finished, result = self._child_stepper.step()\n        if finished:\n            self.next_instruction()\n\n        return self.finished(), result", "        finished, result = self._child_stepper.step()\n        self.next_instruction()\n\n        return self.finished(), result", 'fire', '_BlockStepper.step')
+m('c09-function-step-not-finished', 'C09', WC, "        return True, self._fn(self._workchain)", "        return False, self._fn(self._workchain)", 'fire', '_FunctionStepper.step')
+m('c09-else-not-last', 'C09', WC, "        cond = _Conditional(self, lambda wf: True, label=self.else_.__name__)", "        cond = _Conditional(self, lambda wf: False, label=self.else_.__name__)", 'fire', 'else_')
+m('c09-if-wrong-branch-body', 'C09', WC, "            self._child_stepper = self._if_instruction[self._pos].body.create_stepper(self._workchain)", "            self._child_stepper = self._if_instruction[0].body.create_stepper(self._workchain)", 'fire', '_IfStepper.step')
+m('c09-silent-warning-text', 'C09', WC, "                ' The return value should be `True` or `False` or implement the `__bool__` method. This behavior is '", "                ' The return value should be boolean. This behavior is '", 'silent')
+m('c09-silent-alias-finished', 'C09', WC, "        return self.finished(), result", "        done = self.finished()\n        return done, result", 'silent', None, 'local alias')
+
+# ------------------------------------------------------------------ C10
+m('c10-no-barrier-if', 'C10', WC, "            if not self._awaiting:\n                self._waiting_future.set_result(lang.NULL)", "            self._waiting_future.set_result(lang.NULL)", 'fire', '_awaitable_done')
+m('c10-continue-despite-awaitables', 'C10', WC, "            if self._awaitables:\n                return process_states.Wait(self._do_step, 'Waiting before next step', self._awaitables)\n", "", 'fire', '_do_step')
+m('c10-wait-without-awaitables', 'C10', WC, "return process_states.Wait(self._do_step, 'Waiting before next step', self._awaitables)", "return process_states.Wait(self._do_step, 'Waiting before next step')", 'fire', '_do_step')
+m('c10-awaitables-not-reset', 'C10', WC, "        assert self._stepper is not None\n        self._awaitables = {}\n", "        assert self._stepper is not None\n", 'fire', '_do_step')
+m('c10-failure-swallowed', 'C10', WC, "        except Exception as exception:\n            self._waiting_future.set_exception(exception)", "        except Exception as exception:\n            self.process.logger.warning('awaitable failed: %s', exception)", 'fire', '_awaitable_done')
+m('c10-waiting-state-not-installed', 'C10', WC, "        states_map[process_states.ProcessState.WAITING] = Waiting\n", "", 'fire', 'get_state_classes')
+m('c10-tocontext-not-registered', 'C10', WC, "            if isinstance(return_value, ToContext):\n                self.to_context(**return_value)\n", "", 'fire', '_do_step')
+m('c10-waiting-swallows-failure', 'C10', PS, "        except Interruption:\n            # Deal with the interruption (by raising) but make sure our internal", "        except Exception:\n            # Deal with the interruption (by raising) but make sure our internal", 'silent', None, 'still re-raised: handler re-raises everything it catches')
+m('c10-silent-swap-context-and-wake', 'C10', WC, "        key = self._awaiting.pop(awaitable)\n        try:\n            self.process.ctx[key] = awaitable.result()  # type: ignore\n        except Exception as exception:\n            self._waiting_future.set_exception(exception)\n        else:\n            if not self._awaiting:\n                self._waiting_future.set_result(lang.NULL)",
+  "        key = self._awaiting.pop(awaitable)\n        try:\n            value = awaitable.result()\n        except Exception as exception:\n            self._waiting_future.set_exception(exception)\n        else:\n            if not self._awaiting:\n                self._waiting_future.set_result(lang.NULL)\n            self.process.ctx[key] = value", 'silent', None, 'order of context write and wake-up is immaterial')
+m('c10-first-wakes', 'C10', WC, "            if not self._awaiting:\n                self._waiting_future.set_result(lang.NULL)", "            if self._awaiting is not None:\n                self._waiting_future.set_result(lang.NULL)", 'fire', '_awaitable_done')
